@@ -25,6 +25,7 @@ static evt_priv_t *evs[NS];
 void VF_EVT_DTOR(void *);          /* = static evt_dtor() of evts.c */
 static char udata[NS];
 static int seen[2 * NS + 2], nseen, calls[2], bad_content;
+static m_mod_t *the_mod; static int restashed, restash_r;
 static void record(int h, const m_queue_t *const q) {
     calls[h]++;
     m_itr_foreach(q, {
@@ -32,6 +33,10 @@ static void record(int h, const m_queue_t *const q) {
         int id = -1;
         for (int i = 0; i < NS; i++) if ((void *)e == (void *)evs[i]) id = i;
         if (nseen < 2 * NS + 2) seen[nseen++] = id;
+#ifdef VF_RESTASH
+        /* re-entrant use: the handler puts the oldest event back on the stash while the unstash is delivering it */
+        if (id == 0 && !restashed) { restashed = 1; restash_r = m_mod_stash(the_mod, e); }
+#endif
         if (id >= 0 && (e->userdata != &udata[id] || e->type != M_SRC_TYPE_PS || ((evt_priv_t *)e)->src != NULL)) bad_content++;
     });
 }
@@ -41,7 +46,7 @@ void on_evt2(m_mod_t *m, const m_queue_t *const q) { record(1, q); }
 int vf_main(void) {
     vf_the_ctx = vf_l1_ctx();
     m_mod_t *mod = vf_l1_mod(vf_the_ctx, on_evt);
-    mod->state = M_MOD_RUNNING;
+    mod->state = M_MOD_RUNNING; the_mod = mod;
 #ifdef NS_FIXED
     unsigned char ns = NS_FIXED;
 #else
@@ -71,15 +76,22 @@ int vf_main(void) {
     VF_CHECK(nseen == (int)exp, "handler got exactly min(n, stashed) events");
     for (int i = 0; i < NS; i++) if (i < nseen) VF_CHECK(seen[i] == i, "oldest first, in stash order");
     VF_CHECK(bad_content == 0, "events are redelivered with their original content");
-    VF_CHECK(m_queue_len(mod->stashed) == (ssize_t)(ns - exp), "the others stay stashed");
+#ifdef VF_RESTASH
+    int extra = (ns > 0) ? 1 : 0;          /* event 0 was delivered (n >= 1) and went back on the stash */
+    if (extra) VF_CHECK(restashed && restash_r == 0, "stash from inside the handler accepted");
+#else
+    int extra = 0;
+#endif
+    VF_CHECK(m_queue_len(mod->stashed) == (ssize_t)(ns - exp) + extra, "the others stay stashed (plus what the handler stashed again)");
 
 #ifdef VF_SECOND
     /* the remainder comes back with a later unstash, still in order, nothing twice */
     ssize_t r2 = m_mod_unstash(mod, SIZE_MAX);
-    VF_CHECK(r2 == (ssize_t)(ns - exp), "second unstash returns the remainder");
-    VF_CHECK(nseen == ns, "every stashed event was redelivered exactly once overall");
-    for (int i = 0; i < NS; i++) if (i < nseen) VF_CHECK(seen[i] == i, "overall order is stash order");
-    VF_CHECK(calls[h] == (exp ? 1 : 0) + (ns - exp ? 1 : 0), "second invocation only if something was left");
+    VF_CHECK(r2 == (ssize_t)(ns - exp) + extra, "second unstash returns the remainder");
+    VF_CHECK(nseen == ns + extra, "every stashed event was redelivered exactly once per time it was stashed");
+    for (int i = 0; i < NS; i++) if (i < ns) VF_CHECK(seen[i] == i, "overall order is stash order");
+    if (extra) VF_CHECK(seen[ns] == 0, "the event stashed again comes back last");
+    VF_CHECK(calls[h] == (exp ? 1 : 0) + ((ns - exp) + extra ? 1 : 0), "second invocation only if something was left");
     VF_CHECK(m_queue_len(mod->stashed) == 0, "stash empty at the end");
     VF_CHECK(bad_content == 0, "content intact (2)");
 #endif
